@@ -44,6 +44,12 @@ func obs(s entities.Set, ev vt.Ev) vt.Ev {
 }
 
 func apply(w *vt.Writer, s entities.Set, o op, forcePath string) {
+	defer func() {
+		if r := recover(); r != nil {
+			// a panic inside the library is an observation like any other (no action explains it)
+			w.Emit(vt.Ev{"e": "Panic", "op": o.kind, "detail": fmt.Sprint(r)})
+		}
+	}()
 	switch o.kind {
 	case "prepare":
 		var t entities.ContentType
